@@ -314,6 +314,13 @@ impl Model for M {
             next.push(Ev::WriteTo(*r));
           }
         }
+        // ... and for a reader that is not matched at the moment (lost, or not yet discovered):
+        // the sample must not go to anybody else
+        for (r, rel) in self.cfg.initial.iter().chain(&self.cfg.late) {
+          if *rel && !rm.contains_key(r) {
+            next.push(Ev::WriteTo(*r));
+          }
+        }
       }
     }
     if let Some(n) = self.cfg.burst {
@@ -477,7 +484,7 @@ pub fn run(tier: &str) -> i32 {
     rep.absorb_bfs(&m.cfg.name.clone(), &m.describe(), &bcfg, st);
     rep.machinery_errors.extend(errs);
   }
-  rep.set("alphabet", json!("Write, WriteBig (3 fragments), WriteTo(r), Burst(40), Ack(r, base in {prev, prev+1, first, last+1}, set in {{}, {base}, {base,last}}), Match(r), Lose(r), HbTick, Repair(r)/RepairFrags(r) when armed, Clean"));
+  rep.set("alphabet", json!("Write, WriteBig (3 fragments), WriteTo(r) for matched and for currently unmatched r, Burst(40), Ack(r, base in {prev, prev+1, first, last+1}, set in {{}, {base}, {base,last}}), Match(r), Lose(r), HbTick, Repair(r)/RepairFrags(r) when armed, Clean"));
   rep.assumptions = vec![
     "Puppet readers are truthful: ACKNACK bases never decrease and never exceed last+1 (C03 is the property about that)".into(),
     "Timers are modelled: SendRepairData(r) is offered exactly while rp.repair_mode, SendRepairFrags(r) exactly while fragments are requested (the re-arm rules of Writer::handle_timed_event), heartbeat tick and cache cleaning at any time".into(),
